@@ -26,7 +26,7 @@ RULE = ("kind sim: a parent screen (1-5 plates, most unobserved, arity 1-3, name
         "compared with the extracted model.  The model variant (which of reveal/mask/unmask pass the mappings on) is "
         "detected from the behaviour of the real functions on a probe.  kind prepare (implementation-only predicate): the "
         "prepare_retrospective_simulation CLI main() runs in-process on a saved fully observed screen with random generator / "
-        "smoother / initial-plate options and hold-out fraction; the training and test screens it writes, and the training "
+        "smoother / initial-plate options and hold-out fraction (a quarter of the source screens with a few NaN wells); the training and test screens it writes, and the training "
         "screen after a reveal, must give one id to one sample name and to one (treatment, dose), and the training mappings "
         "must know every condition of the test screen; the latest stage with an observed row is saved and handed to "
         "train_model.main() in-process, stopped when the model receives its observations: every sample / (treatment, dose) it "
@@ -196,6 +196,10 @@ def gen(rng, tier):
                          ["MergeMinPlateSmoother", dict(min_size=rng.choice([2, 3, 4, 6]))], ["MergeTopBottomPlateSmoother", dict(n_iterations=rng.choice([1, 2]))],
                          ["NPlatePerCellLineSmoother", dict(min_n_cell_line_plates=rng.choice([1, 2, 3]))]])
         ini = rng.choice([None, None, ["SparseCoverPlateGenerator", dict(reveal_single_treatment_experiments=rng.choice(["True", "False"]))]])
+        if i % 4 == 3 and sd["rows"]:      # a few wells without a measurement (NaN) in the source screen
+            for r in rng.sample(sd["rows"], min(len(sd["rows"]), rng.randint(1, 3))):
+                r["o"] = float("nan")
+            ini = None if rng.random() < 0.7 else ini
         yield dict(kind="prepare", screen=sd, gen=g, smooth=sm, init=ini, fraction=rng.choice([0.1, 0.25, 0.5, 0.5, 1.0]), seed=rng.randrange(10 ** 6))
     import c18_args
     yield from c18_args.gen_get_args(rng, tier, only="prepare_retrospective_simulation")
@@ -257,6 +261,8 @@ def _run_prepare(desc):
 
     d = simlib.tmpdir()
     feats = ["prepare"] + sorted("opt_" + k for k in ("gen", "smooth", "init") if desc.get(k))
+    if any(isinstance(r.get("o"), float) and r["o"] != r["o"] for r in desc["screen"]["rows"]):
+        feats.append("nan_wells_in_source")
     try:
         built = common.impl_call(sl.build, desc["screen"])
         if isinstance(built, ImplError) or built.size == 0:
